@@ -1399,6 +1399,13 @@ func famSlices(t *tgen) {
 		if t.ch(0.55) {
 			b = t.pick(elems...)
 		}
+		// element types that differ but convert into each other (also behind a pointer)
+		partner := map[string][]string{"int": {"int64", "MyInt", "rune"}, "int64": {"int", "MyInt"}, "MyInt": {"int", "int64"}, "string": {"Name"}, "Name": {"string"},
+			"Item": {"Item2"}, "Item2": {"Item"}, "*Item": {"*Item2"}, "*Item2": {"*Item"}, "*int": {"*MyInt"}, "*MyInt": {"*int"}, "byte": {"int", "rune"}, "rune": {"int", "byte"}}
+		if ps, ok := partner[a]; ok && t.ch(0.35) {
+			b = ps[t.r.Intn(len(ps))]
+			t.feat("convertible-element-pair")
+		}
 		pairs = append(pairs, [2]string{a, b})
 		fmt.Fprintf(&ty, "\tF%d []%s\n", i, a)
 	}
